@@ -56,6 +56,13 @@ def crossratio(
     tensor_axes = tuple(range(a.free_indices - a.rank, 0))
     equal = is_multiple(a.array, b.array, axis=tensor_axes, rtol=EQ_TOL_REL, atol=EQ_TOL_ABS)
     if np.all(equal):
+        # ... provided that a, c and d are collinear points / concurrent lines
+        if from_point is None and a.dim >= 2 and all(isinstance(x, PointTensor) for x in (a, c, d)):
+            if not np.all(join(a, c, _check_dependence=False).contains(d)):
+                raise NotCollinear("The points are not collinear: " + str([a, b, c, d]))
+        elif a.dim == 2 and all(isinstance(x, LineTensor) for x in (a, c, d)):
+            if not np.all(is_concurrent(a, c, d)):
+                raise NotConcurrent("The lines are not concurrent: " + str([a, b, c, d]))
         return np.ones(np.shape(equal))
 
     if (
@@ -110,6 +117,11 @@ def crossratio(
             l = join(a, b, _check_dependence=False)
             if not (np.all(l.contains(c)) and np.all(l.contains(d))):
                 raise NotCollinear("The points are not collinear: " + str([a, b, c, d]))
+            if np.any(equal):
+                # where a and b coincide the line through them is undefined: the line through c and d has to contain them
+                l = join(c, d, _check_dependence=False)
+                if not (np.all(l.contains(a)) and np.all(l.contains(b))):
+                    raise NotCollinear("The points are not collinear: " + str([a, b, c, d]))
 
         basis = np.stack(np.broadcast_arrays(a.array, b.array), axis=-2)
         a = matvec(basis, a.array)
